@@ -15,7 +15,8 @@ NilVal == 0            \* a stored nil
 IsIntTok(v) == v # NilVal /\ v < 100 /\ v % 3 # 2
 IsFloatZero(v) == v \in {103, 108}
 \* slice values: []any (0 mod 5) and typed []int (4 mod 5, other than the float zeroes' neighbours) from 100 on
-IsSliceTok(v) == v >= 100 /\ v % 5 \in {0, 4}
+\* (120, 121, 122: a typed nil pointer, map and func - values like any other, none of them a slice)
+IsSliceTok(v) == v >= 100 /\ v % 5 \in {0, 4} /\ v \notin {120, 121, 122}
 
 SortedSeq(S) ==
   LET RECURSIVE F(_)
